@@ -46,6 +46,9 @@ def jobs_for(prop, tier, seed):
     J = [j for j in all_jobs(seed) if prop in j.props]
     if tier == "quick":
         J = [j for j in J if j.tier == "quick"]
+    else:
+        # tier "manual": kept runnable by name (--job) but in no registered tier, because it is not known to finish on the unchanged tree
+        J = [j for j in J if j.tier != "manual"]
     return J
 
 
